@@ -47,9 +47,9 @@ PROPS["C06"] = dict(
         "values are bounded (|v| <= 2^40 for long, multiples of 2^-10 below 2^30 for double) so that no sum overflows or "
         "rounds; negative values are only given to up-down counters (the API documents counters as non-negative)",
         "either-regions: a series whose running total is 0 may be reported as 0 or be absent; a delta collection "
-        "without new data may deliver nothing, a MetricData without points, or zero-valued points; a delta interval may "
-        "start at the end of the previous delivered interval or inside one of the reader's own Collect calls since "
-        "then that delivered nothing for the stream",
+        "without new data may deliver nothing, a MetricData without points, or zero-valued points; a delta interval starts "
+        "exactly at the end of the previous interval delivered to that reader (the first at SDK start): a Collect call "
+        "that delivered nothing for the stream does not move the start (an earlier either-region here hid seeded C06-m8)",
         "the streams of a configuration differ pairwise in scope / name / value type / unit, so one stream is at most one "
         "MetricData per collection: more than one is reported as a violation (two interval chains for one stream "
         "cannot both abut)",
